@@ -91,7 +91,7 @@ func ruleC14(c *Ctx) {
 	R.Check(okArgs, key+"#reset.args", c.Pos(reset.Site), "Reset(m.ViewBox, m.Palette) read after the options", argKeys(reset.Args[1:]))
 
 	// ---- C14.2 what an option may touch ----
-	R.Rule("C14.2", "option effects: the closures built by WithPalette / WithColorAt store only into the palette (whole, resp. one index); WithColorAt converts through color.RGBAModel", 2)
+	R.Rule("C14.2", "option effects: the closures built by WithPalette / WithColorAt store only into the palette (whole, resp. one index); WithPalette stores its whole argument unconditionally; WithColorAt stores, at the given index, the colour converted through color.RGBAModel (or the equivalent 16-to-8-bit narrowing of c.RGBA())", 4)
 	for _, mk := range []string{"WithPalette", "WithColorAt"} {
 		maker := c.Fn("decode", mk)
 		if maker == nil {
@@ -107,9 +107,22 @@ func ruleC14(c *Ctx) {
 		}
 		in2 := c.Interp()
 		var targets []string
+		type optStore struct {
+			ptr, val, guard *sym.Term
+			loops           int
+		}
+		var optStores []optStore
 		in2.OnStore = func(fr *sym.Frame, site ssa.Instruction, ptr, val *sym.Term) {
 			if ptr.Obj != nil && ptr.Obj.Kind != "alloc" {
 				targets = append(targets, ptr.Obj.ID+ptr.Path.String())
+				if ev := in2.Emit(fr, "store:option", site, "", []*sym.Term{ptr, val}, nil); ev != nil {
+					for _, o := range optStores {
+						if o.ptr.Key() == ptr.Key() && o.val.Key() == val.Key() {
+							return
+						}
+					}
+					optStores = append(optStores, optStore{ptr, val, ev.Guard, len(ev.Loops)})
+				}
 			}
 		}
 		var binds []*sym.Term
@@ -124,6 +137,22 @@ func ruleC14(c *Ctx) {
 			}
 		}
 		R.Check(ok, "decode."+mk+"$1#stores", c.FPos(clo), "stores only into m.Palette", strings.Join(targets, ","))
+		// what is stored: the whole replacement, unconditionally / the converted colour at the given index
+		one := len(optStores) == 1 && optStores[0].loops == 0 && len(guardLits(optStores[0].guard)) == 0
+		detail := fmt.Sprintf("%d distinct stores", len(optStores))
+		if one {
+			st := optStores[0]
+			detail = shortKey(st.ptr) + " := " + shortKey(st.val)
+			switch mk {
+			case "WithPalette":
+				one = st.ptr.Path.String() == fmt.Sprintf(".%d", palIdx) && (st.val.Key() == "$param:free:p" || st.val.Key() == "$init:param:free:p")
+			case "WithColorAt":
+				okPtr := len(st.ptr.Path) == 2 && st.ptr.Path[1].Sym != nil && strings.HasSuffix(stripIntConv(st.ptr.Path[1].Sym).Key(), "param:free:index")
+				one = okPtr && isRGBAModelConversion(in2, st.val, "param:free:c")
+			}
+		}
+		want := map[string]string{"WithPalette": "one unconditional store: m.Palette = p (every entry, also transparent ones)", "WithColorAt": "one unconditional store: m.Palette[index] = color.RGBAModel.Convert(c).(color.RGBA), or the four results of c.RGBA() each narrowed as uint8(x >> 8)"}[mk]
+		R.Check(one, "decode."+mk+"$1#value", c.FPos(clo), want, detail)
 	}
 
 	// ---- C14.3 no aliasing by type ----
@@ -211,4 +240,60 @@ func laterState(key, frameID string, hdr int) bool {
 func isHeaderCond(l sym.LoopRef, lit *sym.Term) bool {
 	cond, _, ok := l.Frame.HeaderCond(l.Header)
 	return ok && (sym.Eq(cond, lit) || sym.Eq(sym.Not(cond), lit))
+}
+
+// isRGBAModelConversion: v is color.RGBAModel.Convert(c).(color.RGBA), or color.RGBA{uint8(r>>8), uint8(g>>8),
+// uint8(b>>8), uint8(a>>8)} with r,g,b,a the results of c.RGBA() in order - the documented meaning of the model.
+func isRGBAModelConversion(in *sym.Interp, v *sym.Term, cKey string) bool {
+	// form 1: a type assertion on the result of an interface call Convert on the package-level RGBAModel with argument c
+	resultOf := func(ev *sym.Event) string {
+		if val, ok := ev.Site.(ssa.Value); ok {
+			return "#" + val.Name()
+		}
+		return "#?"
+	}
+	for _, ev := range in.Events {
+		if ev.Kind != "invoke" || !strings.HasSuffix(ev.Callee, ".Convert") || len(ev.Args) < 2 {
+			continue
+		}
+		recvOK := strings.Contains(ev.Args[0].Key(), "image/color.RGBAModel")
+		argOK := strings.HasSuffix(stripElem(ev.Args[1]).Key(), cKey)
+		inner := v
+		for inner.Op == "typeassert" || inner.Op == "conv" {
+			inner = inner.Args[0]
+		}
+		if recvOK && argOK && inner.Op == "atom" && strings.HasPrefix(inner.Name, "call#") && strings.HasSuffix(inner.Name, resultOf(ev)) {
+			return true
+		}
+	}
+	// form 2: the four results of c.RGBA(), each shifted right by 8 and narrowed
+	if v.Op == "agg" && len(v.Args) == 4 {
+		var call *sym.Event
+		for _, ev := range in.Events {
+			if ev.Kind == "invoke" && strings.HasSuffix(ev.Callee, ".RGBA") && len(ev.Args) >= 1 && strings.HasSuffix(stripElem(ev.Args[0]).Key(), cKey) {
+				call = ev
+			}
+		}
+		if call == nil {
+			return false
+		}
+		for i, a := range v.Args {
+			if a.Op != "conv" || !isUint8(a.T) {
+				return false
+			}
+			sh := a.Args[0]
+			if sh.Op != "bin" || sh.Name != ">>" {
+				return false
+			}
+			if k, ok := sh.Args[1].Int64(); !ok || k != 8 {
+				return false
+			}
+			src := sh.Args[0]
+			if src.Op != "extract" || src.Name != fmt.Sprint(i) || src.Args[0].Op != "atom" || !strings.HasSuffix(src.Args[0].Name, resultOf(call)) {
+				return false
+			}
+		}
+		return true
+	}
+	return false
 }
